@@ -173,3 +173,8 @@ Proof.
   split; [vm_compute; reflexivity|]. split; [repeat constructor; cbn; lia|].
   split; [vm_compute; reflexivity | reflexivity].
 Qed.
+
+(* copy_closed_relative: a source that lost data blob 3: only the tree is requested *)
+Example copy_damaged_source :
+  needed ex_tid [(Tree, 1)] [] [t5] = [(Tree, 1)].
+Proof. vm_compute. reflexivity. Qed.
